@@ -44,6 +44,9 @@ type WireCfg struct {
 	// SizesFill != 0: the post-header lengths of the event types the harness does not write itself are arbitrary non-zero
 	// values (a format description may describe any type with any header size)
 	SizesFill byte
+	// PadOnes: the unused high bits of the last byte of the columns-present bitmaps of rows events are set (the format
+	// leaves them undefined; a reader must not count them)
+	PadOnes bool
 }
 
 func (c WireCfg) postHeaderLens() []byte {
@@ -251,11 +254,17 @@ func rowsBody(c WireCfg, kind string, t *Table, rows []RowPair, extra []byte, pr
 	b = append(b, lenEnc(uint64(len(t.Cols)))...)
 	hasB := kind != "write"
 	hasA := kind != "delete"
+	pad := func(bm []byte, n int) []byte {
+		if c.PadOnes && n%8 != 0 {
+			bm[len(bm)-1] |= byte(0xff) << uint(n%8)
+		}
+		return bm
+	}
 	if hasB {
-		b = append(b, bitmapBytes(presentB)...)
+		b = append(b, pad(bitmapBytes(presentB), len(presentB))...)
 	}
 	if hasA {
-		b = append(b, bitmapBytes(presentA)...)
+		b = append(b, pad(bitmapBytes(presentA), len(presentA))...)
 	}
 	for _, r := range rows {
 		if hasB {
